@@ -190,6 +190,10 @@ class Program:
         if DEP_STRUCT not in self.structs:
             raise AnalysisBroken('anchor %s (dependency table type) not found' % DEP_STRUCT)
         self.dep_fields = self.field_table(DEP_STRUCT)
+        # pure dependency wrappers are resolved at their call sites; their bodies are not analysed as library functions
+        self.wrapper_defs = {n: self.defined[n] for n in self.dep_wrappers()}
+        for n in self.wrapper_defs:
+            del self.defined[n]
 
     # struct field names from debug info, keyed by byte offset
     def field_table(self, sname):
@@ -225,8 +229,41 @@ class Program:
         return [f for n, f in sorted(self.defined.items()) if base_name(n) == name]
 
     # ---- call resolution
+    def dep_wrappers(self):
+        """functions that do nothing but forward their parameters, in order, to one dependency-table entry and return its result
+        (e.g. static inline deps_memzero(p, n) { polyseed_deps.memzero(p, n); }): name -> field. Calls to them are treated as dep:<field> calls."""
+        if getattr(self, '_depw', None) is None:
+            self._depw = {}
+            for f in self.defined.values():
+                if len(f.blocks) != 1: continue
+                calls = [i for i in f.blocks[0] if i.op == 'call' and not self.is_dbg(i)]
+                if len(calls) != 1: continue
+                c = calls[0]
+                t = self._raw_target(c)
+                if not t or t[0] != 'dep': continue
+                if len(c.ops) != len(f.params): continue
+                ok = True
+                for k, a in enumerate(c.ops):
+                    v = a
+                    while v['k'] == 'i' and f.insts[v['id']].op == 'bitcast': v = f.insts[v['id']].ops[0]
+                    if v != {'k': 'a', 'n': k}: ok = False
+                for i in f.blocks[0]:
+                    if i.op in ('store', 'alloca'): ok = False
+                    if i.op == 'ret' and i.ops:
+                        v = i.ops[0]
+                        while v['k'] == 'i' and f.insts[v['id']].op == 'bitcast': v = f.insts[v['id']].ops[0]
+                        if v != {'k': 'i', 'id': c.id}: ok = False
+                if ok: self._depw[f.name] = t[1]
+        return self._depw
+
     def call_target(self, inst):
-        """('direct', name) | ('dep', field) | ('indirect', valref) | ('asm', None)"""
+        """('direct', name) | ('dep', field) | ('indirect', valref) | ('asm', None); calls to pure dependency wrappers resolve to ('dep', field)"""
+        t = self._raw_target(inst)
+        if t and t[0] == 'direct' and t[1] in self.dep_wrappers():
+            return ('dep', self.dep_wrappers()[t[1]])
+        return t
+
+    def _raw_target(self, inst):
         if inst.op not in ('call', 'invoke'):
             return None
         if 'callee' in inst.d:
@@ -250,6 +287,8 @@ class Program:
         return inst.op == 'call' and inst.d.get('callee', '').startswith('llvm.dbg.')
 
     def calls(self, fn):
+        if fn.name in self.dep_wrappers():
+            return            # the wrapper's single dependency call is attributed to the wrapper's call sites
         for i in fn.all_insts():
             if i.op == 'call' and not self.is_dbg(i):
                 yield i, self.call_target(i)
